@@ -752,6 +752,9 @@ def _auth_class(auth) -> str:
     return "cert-auth/exempting-rules-only"
 
 
+_STARTUP_CTRL: dict[str, str] = {}
+
+
 class Startup(Family):
     """Every supported configuration: {start_server(...), `nauyaca serve --config`} x certificate
     {auto-generated, supplied RSA-2048 / EC, supplied below the security level: RSA-1024, SHA-1 signed}
@@ -830,7 +833,9 @@ class Startup(Family):
             return orig(self_, request)
 
         H.StaticFileHandler.handle = counting
-        obs = {"started": False, "error": None, "listener": "-", "probes": []}
+        if case["cert"] not in _STARTUP_CTRL:   # once per process and certificate kind: the old version IS negotiable with this certificate
+            _STARTUP_CTRL[case["cert"]] = tls_startup.control_negotiates(case["cert"], 1, 1)
+        obs = {"started": False, "error": None, "listener": "-", "probes": [], "control_tls10": _STARTUP_CTRL[case["cert"]]}
         try:
             with tls_startup.Started(case["entry"], case["cert"], case["rcc"], case["auth"], root) as srv:
                 obs["started"], obs["error"], obs["listener"] = srv.started, srv.error, srv.backend
@@ -894,7 +899,7 @@ class Startup(Family):
                 if o["version"] in OLD_TLS:
                     return (f"startup-old-tls-{tag}",
                             f"the server started by [{self._describe(case)}] completed a {o['version']} handshake with a permissive client offering "
-                            f"{VERS[p['lo']]}..{VERS[p['hi']]}{' and presenting a client certificate' if p['cc'] else ''} (response read afterwards: {o['resp']!r})")
+                            f"{VERS[p['lo']]}..{VERS[p['hi']]}{' and presenting a client certificate' if p['cc'] else ''} (response read afterwards: {o['resp']!r}; a permissive control server with the same certificate negotiates {obs.get('control_tls10')} with a TLS 1.0 client)")
                 if o["resp"] and o["version"] not in ("TLSv1.2", "TLSv1.3"):
                     return (f"startup-response-without-modern-tls-{tag}", f"a response {o['resp']!r} was read on a connection whose TLS version is {o['version']}")
         return None
@@ -903,13 +908,14 @@ class Startup(Family):
         return True
 
     def key(self, case, obs):
-        cert = case["cert"] if case["cert"] in ("auto",) + tuple(tls_startup.WEAK_KINDS) else "supplied"
-        head = f"{case['entry']} cert={cert} rcc={'y' if case['rcc'] else 'n'} {_auth_class(case['auth'])}"
+        # (both entry points alternate uniformly over every class; at most 40 classes are printed)
+        cert = "auto" if case["cert"] == "auto" else "weak-key" if case["cert"].startswith("rsa1024") else "sha1-signed" if case["cert"].endswith("sha1") else "supplied"
+        head = f"cert={cert} rcc={'y' if case['rcc'] else 'n'} {_auth_class(case['auth'])}"
         if not obs["started"]:
             return f"{head} -> refuses to start ({obs['error']})"
         plain = sorted({("alert" if o["out_len"] else "nothing") for p, o in zip(case["probes"], obs["probes"]) if p["kind"] == "plain"})
-        old = sorted({str(o["version"]) for p, o in zip(case["probes"], obs["probes"]) if p["kind"] == "tls" and p["hi"] <= 2})
-        modern = sorted({str(o["version"]) for p, o in zip(case["probes"], obs["probes"]) if p["kind"] == "tls" and p["hi"] > 2})
+        old = sorted({str(o["version"] or "refused") for p, o in zip(case["probes"], obs["probes"]) if p["kind"] == "tls" and p["hi"] <= 2})
+        modern = sorted({str(o["version"] or "refused") for p, o in zip(case["probes"], obs["probes"]) if p["kind"] == "tls" and p["hi"] > 2})
         return f"{head} -> {obs['listener']}; plaintext {'/'.join(plain)}; old clients {'/'.join(old)}; modern {'/'.join(modern)}"
 
 
@@ -1129,7 +1135,11 @@ class CliCommands(Family):
             return ("old" if s["hi"] <= 2 else "modern" if s["lo"] >= 3 else "old+modern") + ("/reset-first" if s["reset_first"] else "")
         conn = sum(len(o["attempts"]) for o in obs["steps"])
         what = f"{case['cmd']} [{case['variant']}]" if case["variant"] != "synthesised" else f"{case['cmd']} [arguments synthesised from its parameters; {'CONNECTS' if conn else 'opens no connection'}; {obs['steps'][0]['outcome']}]"
-        return f"{what} pins={case['prepin'] or 'none'}: " + " > ".join(cls(s) for s in case["steps"][:2]) + (" > ..." if len(case["steps"]) > 2 else "")
+        if case["variant"] == "synthesised":
+            return what
+        # (the three initial pin stores alternate uniformly; at most 40 classes are printed)
+        hist = "old-only server" if all(s["hi"] <= 2 for s in case["steps"]) else "history " + " > ".join(cls(s) for s in case["steps"][:2]) + (" > ..." if len(case["steps"]) > 2 else "")
+        return f"{what}: {hist}" if len(case["steps"]) == 1 or all(s["hi"] <= 2 for s in case["steps"]) else f"{what}: history with old and modern steps"
 
 
 FAMILIES = [Versions(), PlaintextModel(), Live(), ClientHistories(), Startup(), CliCommands()]
